@@ -84,6 +84,10 @@ func (c07) Plan(tier string, seed int64) []core.Scenario {
 	for i := 0; i < nw; i++ {
 		out = append(out, core.Sc("w6").WithN("variant", i%4).WithN("noise", i%3))
 	}
+	for i := 0; i < 3; i++ {
+		out = append(out, core.Sc("unencodable").WithN("at", []int{0, 5, 11}[i]).WithN("noise", i%3))
+		out = append(out, core.Sc("revsub-reconnect").WithN("pre", i%2).WithN("noise", i%3))
+	}
 	for i := range out {
 		out[i].Seed = seed*32452843 + int64(i)
 	}
@@ -99,6 +103,10 @@ func (p c07) Run(sc core.Scenario) core.Result {
 		p.w6(sc, r)
 	case "cancel-sibling":
 		p.cancelSibling(sc, r)
+	case "unencodable":
+		p.unencodable(sc, r)
+	case "revsub-reconnect":
+		p.revSubReconnect(sc, r)
 	}
 	return r.Result()
 }
